@@ -32,13 +32,15 @@ class C20(core.Prop):
     def model_input(self, c):
         return [msggen.sx_msg(c["a"]), msggen.sx_msg(c["b"])]
 
-    def expected(self, c):
-        a, b = c["a"], c["b"]
-        if c["how_b"] == "parsed":
-            a, b = msggen.norm(a), msggen.norm(b)   # parsing maps empty text to absent text
-            if a != c["a"]:
-                return None   # the copy legitimately differs by that normalisation; either answer is fine
-        return msggen.canon(a) == msggen.canon(b)
+    def model_input2(self, c, obs):
+        # the two objects as they actually are (public attributes), so that a codec defect on the
+        # re-parsed route is not mistaken for an equality defect
+        if obs.get("status") == "ok":
+            return [msggen.sx_msg(obs["view_a"]), msggen.sx_msg(obs["view_b"])]
+        return self.model_input(c)
+
+    def expected(self, c, obs):
+        return msggen.canon(obs["view_a"]) == msggen.canon(obs["view_b"])
 
     def compare(self, c, obs, mout):
         if obs["status"] == "skipped":
@@ -47,8 +49,6 @@ class C20(core.Prop):
             return "model rejected the input: %r" % (mout,)
         if obs["status"] != "ok":
             return "implementation %s, model says eq=%s" % (obs["status"], mout[0])
-        if self.expected(c) is None:
-            return None
         if bool(mout[0]) != obs["eq"]:
             return "== is %s, model msg_eqb is %s (%s)" % (obs["eq"], bool(mout[0]), c["label"])
         return None
@@ -58,9 +58,7 @@ class C20(core.Prop):
             return None
         if obs["status"] != "ok":
             return "equality-raised: comparing two messages %s (%s)" % (obs["status"], obs.get("detail"))
-        exp = self.expected(c)
-        if exp is None:
-            return None
+        exp = self.expected(c, obs)
         kind = c["label"].split(":")[0]
         if obs["eq"] != exp:
             return "%s: == returned %s for messages that are structurally %s" % (kind, obs["eq"], "equal" if exp else "different")
